@@ -325,6 +325,21 @@ def run_impl_robust(cases, batch=300, timeout=60, env=None, mem_kb=None):
         results.update(got)
         missing = [c for c in chunk if c["id"] not in got]
         if missing:
-            culprits.append((missing[0], how))
+            # the first case without a result is the suspect: it counts only when it fails again run by itself with a
+            # generous limit (a batch can run out of time on a slow or busy machine without any case hanging)
+            sus = missing[0]
+            try:
+                p1 = subprocess.run([HARNESS + "/ugoh"], input=sus["line"] + "\n", capture_output=True, text=True, timeout=max(3 * timeout, 180), env=env,
+                                    preexec_fn=_limit_as(mem_kb) if mem_kb else None)
+                out1, how1 = p1.stdout, "crash"
+            except subprocess.TimeoutExpired as e:
+                out1 = e.stdout.decode() if isinstance(e.stdout, bytes) else (e.stdout or "")
+                how1 = "hang"
+            ok1 = False
+            for ln in out1.split("\n"):
+                i = ln.find(" ")
+                if i > 0 and ln[:i] == sus["id"]:
+                    results[sus["id"]] = ln[i+1:]; ok1 = True
+            if not ok1: culprits.append((sus, how1))
             todo = missing[1:] + todo
     return results, culprits
